@@ -318,6 +318,8 @@ pub fn alphabet(name: &str) -> Vec<Op> {
             // one slot used twice by sibling children
             Op::Add(b(var(0), var(0))),
             Op::Add(b(var(0), var(1))),
+            // one class mentioned twice by a parent, under two different argument orders
+            Op::Add(b(f(0, 1), f(1, 0))),
         ],
         "CASC" => {
             // a union that improves the analysis datum of a class several levels below a parent which ALSO uses the
